@@ -55,6 +55,9 @@ type Event struct {
 	Mutates bool
 	Ambient bool // not performed through a root handle
 	Arg     int64
+	// Rejected: the root handle refused the name (escape, absolute path, missing parent);
+	// nothing was touched.
+	Rejected bool
 }
 
 type FS struct {
@@ -422,7 +425,11 @@ func rootOf(r *os.Root) *rootInfo {
 func RootLstat(r *os.Root, name string) (fs.FileInfo, error) {
 	ri := rootOf(r)
 	full, err := ri.resolve("lstatat", name)
-	ri.fs.log(Event{Op: "lstat", Path: full})
+		if err != nil {
+		ri.fs.log(Event{Op: "lstat", Path: name, Rejected: true})
+	} else {
+		ri.fs.log(Event{Op: "lstat", Path: full})
+	}
 	if err != nil {
 		return nil, err
 	}
@@ -452,7 +459,11 @@ func RootOpenFile(r *os.Root, name string, flag int, perm fs.FileMode) (*os.File
 	ri := rootOf(r)
 	full, err := ri.resolve("openat", name)
 	mut := flag&(os.O_WRONLY|os.O_RDWR|os.O_CREATE|os.O_TRUNC|os.O_APPEND) != 0
-	ri.fs.log(Event{Op: "open", Path: full, Mutates: mut, Arg: int64(flag)})
+		if err != nil {
+		ri.fs.log(Event{Op: "open", Path: name, Rejected: true})
+	} else {
+		ri.fs.log(Event{Op: "open", Path: full, Mutates: mut, Arg: int64(flag)})
+	}
 	if err != nil {
 		return nil, err
 	}
@@ -478,7 +489,11 @@ func RootOpenFile(r *os.Root, name string, flag int, perm fs.FileMode) (*os.File
 func RootRemove(r *os.Root, name string) error {
 	ri := rootOf(r)
 	full, err := ri.resolve("unlinkat", name)
-	ri.fs.log(Event{Op: "remove", Path: full, Mutates: true})
+		if err != nil {
+		ri.fs.log(Event{Op: "remove", Path: name, Rejected: true})
+	} else {
+		ri.fs.log(Event{Op: "remove", Path: full, Mutates: true})
+	}
 	if err != nil {
 		return err
 	}
@@ -499,7 +514,11 @@ func RootRemove(r *os.Root, name string) error {
 func RootRemoveAll(r *os.Root, name string) error {
 	ri := rootOf(r)
 	full, err := ri.resolve("RemoveAll", name)
-	ri.fs.log(Event{Op: "removeall", Path: full, Mutates: true})
+		if err != nil {
+		ri.fs.log(Event{Op: "removeall", Path: name, Rejected: true})
+	} else {
+		ri.fs.log(Event{Op: "removeall", Path: full, Mutates: true})
+	}
 	if err != nil {
 		return err
 	}
@@ -523,7 +542,11 @@ func RootRemoveAll(r *os.Root, name string) error {
 func RootMkdir(r *os.Root, name string, perm fs.FileMode) error {
 	ri := rootOf(r)
 	full, err := ri.resolve("mkdirat", name)
-	ri.fs.log(Event{Op: "mkdir", Path: full, Mutates: true, Arg: int64(perm)})
+		if err != nil {
+		ri.fs.log(Event{Op: "mkdir", Path: name, Rejected: true})
+	} else {
+		ri.fs.log(Event{Op: "mkdir", Path: full, Mutates: true, Arg: int64(perm)})
+	}
 	if err != nil {
 		return err
 	}
@@ -537,15 +560,23 @@ func RootMkdir(r *os.Root, name string, perm fs.FileMode) error {
 func RootMkdirAll(r *os.Root, name string, perm fs.FileMode) error {
 	ri := rootOf(r)
 	if name == "" || strings.HasPrefix(name, "/") {
-		ri.fs.log(Event{Op: "mkdirall", Path: name, Mutates: true})
+		ri.fs.log(Event{Op: "mkdirall", Path: name, Rejected: true})
 		return &fs.PathError{Op: "mkdirat", Path: name, Err: errPathEscapes{}}
 	}
 	c := path.Clean(name)
 	if c == ".." || strings.HasPrefix(c, "../") {
-		ri.fs.log(Event{Op: "mkdirall", Path: name, Mutates: true})
+		ri.fs.log(Event{Op: "mkdirall", Path: name, Rejected: true})
 		return &fs.PathError{Op: "mkdirat", Path: name, Err: errPathEscapes{}}
 	}
-	ri.fs.log(Event{Op: "mkdirall", Path: c, Mutates: true, Arg: int64(perm)})
+	fullc := c
+	if ri.dir != "." {
+		if c == "." {
+			fullc = ri.dir
+		} else {
+			fullc = ri.dir + "/" + c
+		}
+	}
+	ri.fs.log(Event{Op: "mkdirall", Path: fullc, Mutates: true, Arg: int64(perm)})
 	if c == "." {
 		return nil
 	}
@@ -573,7 +604,11 @@ func RootMkdirAll(r *os.Root, name string, perm fs.FileMode) error {
 func RootChmod(r *os.Root, name string, mode fs.FileMode) error {
 	ri := rootOf(r)
 	full, err := ri.resolve("chmodat", name)
-	ri.fs.log(Event{Op: "chmod", Path: full, Mutates: true, Arg: int64(mode)})
+		if err != nil {
+		ri.fs.log(Event{Op: "chmod", Path: name, Rejected: true})
+	} else {
+		ri.fs.log(Event{Op: "chmod", Path: full, Mutates: true, Arg: int64(mode)})
+	}
 	if err != nil {
 		return err
 	}
@@ -588,7 +623,11 @@ func RootChmod(r *os.Root, name string, mode fs.FileMode) error {
 func RootChtimes(r *os.Root, name string, atime, mtime time.Time) error {
 	ri := rootOf(r)
 	full, err := ri.resolve("chtimesat", name)
-	ri.fs.log(Event{Op: "chtimes", Path: full, Mutates: true, Arg: mtime.Unix()})
+		if err != nil {
+		ri.fs.log(Event{Op: "chtimes", Path: name, Rejected: true})
+	} else {
+		ri.fs.log(Event{Op: "chtimes", Path: full, Mutates: true, Arg: mtime.Unix()})
+	}
 	if err != nil {
 		return err
 	}
@@ -604,7 +643,11 @@ func RootChtimes(r *os.Root, name string, atime, mtime time.Time) error {
 func RootLchown(r *os.Root, name string, uid, gid int) error {
 	ri := rootOf(r)
 	full, err := ri.resolve("fchownat", name)
-	ri.fs.log(Event{Op: "chown", Path: full, Mutates: true, Arg: int64(uid)<<32 | int64(uint32(gid))})
+		if err != nil {
+		ri.fs.log(Event{Op: "chown", Path: name, Rejected: true})
+	} else {
+		ri.fs.log(Event{Op: "chown", Path: full, Mutates: true, Arg: int64(uid)<<32 | int64(uint32(gid))})
+	}
 	if err != nil {
 		return err
 	}
@@ -619,7 +662,11 @@ func RootLchown(r *os.Root, name string, uid, gid int) error {
 func RootReadlink(r *os.Root, name string) (string, error) {
 	ri := rootOf(r)
 	full, err := ri.resolve("readlinkat", name)
-	ri.fs.log(Event{Op: "readlink", Path: full})
+		if err != nil {
+		ri.fs.log(Event{Op: "readlink", Path: name, Rejected: true})
+	} else {
+		ri.fs.log(Event{Op: "readlink", Path: full})
+	}
 	if err != nil {
 		return "", err
 	}
@@ -636,7 +683,11 @@ func RootReadlink(r *os.Root, name string) (string, error) {
 func RootSymlink(r *os.Root, oldname, newname string) error {
 	ri := rootOf(r)
 	full, err := ri.resolve("symlinkat", newname)
-	ri.fs.log(Event{Op: "symlink", Path: full, Path2: oldname, Mutates: true})
+		if err != nil {
+		ri.fs.log(Event{Op: "symlink", Path: newname, Rejected: true})
+	} else {
+		ri.fs.log(Event{Op: "symlink", Path: full, Path2: oldname, Mutates: true})
+	}
 	if err != nil {
 		return err
 	}
@@ -651,14 +702,15 @@ func RootRename(r *os.Root, oldname, newname string) error {
 	ri := rootOf(r)
 	fo, err := ri.resolve("renameat", oldname)
 	if err != nil {
-		ri.fs.log(Event{Op: "rename", Path: oldname, Path2: newname, Mutates: true})
+		ri.fs.log(Event{Op: "rename", Path: oldname, Path2: newname, Rejected: true})
 		return err
 	}
 	fn, err := ri.resolve("renameat", newname)
-	ri.fs.log(Event{Op: "rename", Path: fo, Path2: fn, Mutates: true})
 	if err != nil {
+		ri.fs.log(Event{Op: "rename", Path: oldname, Path2: newname, Rejected: true})
 		return err
 	}
+	ri.fs.log(Event{Op: "rename", Path: fo, Path2: fn, Mutates: true})
 	src := ri.fs.find(fo)
 	if src == nil {
 		return notExist("renameat", oldname)
@@ -680,7 +732,11 @@ func RootRename(r *os.Root, oldname, newname string) error {
 func RootOpenRoot(r *os.Root, name string) (*os.Root, error) {
 	ri := rootOf(r)
 	full, err := ri.resolve("openat", name)
-	ri.fs.log(Event{Op: "openroot", Path: full})
+		if err != nil {
+		ri.fs.log(Event{Op: "openroot", Path: name, Rejected: true})
+	} else {
+		ri.fs.log(Event{Op: "openroot", Path: full})
+	}
 	if err != nil {
 		return nil, err
 	}
@@ -716,7 +772,11 @@ func (rf *rootFS) Open(name string) (fs.File, error) {
 		return nil, err
 	}
 	full, err := rf.ri.resolve("openat", name)
-	rf.ri.fs.log(Event{Op: "open", Path: full})
+		if err != nil {
+		rf.ri.fs.log(Event{Op: "open", Path: name, Rejected: true})
+	} else {
+		rf.ri.fs.log(Event{Op: "open", Path: full})
+	}
 	if err != nil {
 		return nil, err
 	}
@@ -732,7 +792,11 @@ func (rf *rootFS) Stat(name string) (fs.FileInfo, error) {
 		return nil, err
 	}
 	full, err := rf.ri.resolve("statat", name)
-	rf.ri.fs.log(Event{Op: "lstat", Path: full})
+		if err != nil {
+		rf.ri.fs.log(Event{Op: "lstat", Path: name, Rejected: true})
+	} else {
+		rf.ri.fs.log(Event{Op: "lstat", Path: full})
+	}
 	if err != nil {
 		return nil, err
 	}
@@ -763,7 +827,11 @@ func (rf *rootFS) ReadDir(name string) ([]fs.DirEntry, error) {
 		return nil, err
 	}
 	full, err := rf.ri.resolve("openat", name)
-	rf.ri.fs.log(Event{Op: "readdir", Path: full})
+		if err != nil {
+		rf.ri.fs.log(Event{Op: "readdir", Path: name, Rejected: true})
+	} else {
+		rf.ri.fs.log(Event{Op: "readdir", Path: full})
+	}
 	if err != nil {
 		return nil, err
 	}
@@ -967,11 +1035,20 @@ func NewPendingFile(p string, opts ...renameio.Option) (*renameio.PendingFile, e
 	}
 	ri := rootOf(r)
 	full, err := ri.resolve("openat", p)
-	ri.fs.log(Event{Op: "create", Path: full})
+		if err != nil {
+		ri.fs.log(Event{Op: "create", Path: p, Rejected: true})
+	} else {
+		ri.fs.log(Event{Op: "create", Path: full})
+	}
 	if err != nil {
 		return nil, err
 	}
-	tmp := &Node{Name: full + "\x00tmp", Kind: KReg, Perm: 0o600, Temp: true}
+	// the temporary file lives inside the root, next to the destination name
+	tdir := ri.dir
+	if i := strings.LastIndex(full, "/"); i >= 0 && full != ri.dir {
+		tdir = full[:i]
+	}
+	tmp := &Node{Name: tdir + "/\x00tmp-" + path.Base(full), Kind: KReg, Perm: 0o600, Temp: true}
 	ri.fs.Nodes = append(ri.fs.Nodes, tmp)
 	of := newFile(ri.fs, tmp, true)
 	pf := &renameio.PendingFile{File: of}
@@ -1015,7 +1092,11 @@ func PendingCloseAtomicallyReplace(pf *renameio.PendingFile) error {
 func SymlinkRoot(r *os.Root, oldname, newname string) error {
 	ri := rootOf(r)
 	full, err := ri.resolve("symlinkat", newname)
-	ri.fs.log(Event{Op: "symlink-replace", Path: full, Path2: oldname, Mutates: true})
+		if err != nil {
+		ri.fs.log(Event{Op: "symlink-replace", Path: newname, Rejected: true})
+	} else {
+		ri.fs.log(Event{Op: "symlink-replace", Path: full, Path2: oldname, Mutates: true})
+	}
 	if err != nil {
 		return err
 	}
@@ -1037,13 +1118,16 @@ func mkAt(op string, dirfd int, p string, kind Kind, perm uint32, dev int) error
 		Cur.log(Event{Op: op, Path: p, Ambient: true, Mutates: true})
 		return syscall.EBADF
 	}
+	if p == "." || p == ".." || p == "/" {
+		// these always exist ("/" is what filepath.Base returns for the root): the kernel
+		// answers EEXIST / EADDRINUSE and creates nothing
+		fi.fs.log(Event{Op: op, Path: p, Rejected: true})
+		return syscall.EEXIST
+	}
 	bad := strings.Contains(p, "/") || p == ""
 	fi.fs.log(Event{Op: op, Path: fi.node.Name + "/" + p, Mutates: true, Ambient: bad, Arg: int64(dev)})
 	if bad {
 		return syscall.EINVAL
-	}
-	if p == "." || p == ".." {
-		return syscall.EEXIST
 	}
 	full := p
 	if fi.node.Name != "." {
@@ -1136,6 +1220,13 @@ func Bind(fd int, sa unix.Sockaddr) error {
 	}
 	name := su.Name
 	const pfx = "/proc/self/fd/"
+	if name == "/proc/self/fd" {
+		// base "..": filepath.Join collapsed it lexically; the directory exists, nothing is created
+		if Cur != nil {
+			Cur.log(Event{Op: "bind", Path: name, Rejected: true})
+		}
+		return syscall.EADDRINUSE
+	}
 	if !strings.HasPrefix(name, pfx) {
 		ambient("bind", name, true)
 		return syscall.EINVAL
@@ -1143,8 +1234,11 @@ func Bind(fd int, sa unix.Sockaddr) error {
 	rest := name[len(pfx):]
 	i := strings.Index(rest, "/")
 	if i < 0 {
-		ambient("bind", name, true)
-		return syscall.EINVAL
+		// "/proc/self/fd/N" itself (base "." or "/"): exists, nothing is created
+		if Cur != nil {
+			Cur.log(Event{Op: "bind", Path: name, Rejected: true})
+		}
+		return syscall.EADDRINUSE
 	}
 	dirfd := 0
 	for _, c := range rest[:i] {
